@@ -161,6 +161,13 @@ void draft_t::parse_args(const value_t& args)
         ;                       // just ignore this argument
       }
       else if (arg == "@" || arg == "@@") {
+        // A cost belongs to the posting whose amount precedes it; the amount
+        // has already concluded that posting
+        if (! post) {
+          if (tmpl->posts.empty())
+            throw std::runtime_error(_("Invalid xact command arguments"));
+          post = &tmpl->posts.back();
+        }
         amount_t cost;
         post->cost_operator = arg;
         if (++begin == end)
